@@ -47,6 +47,15 @@ def settles_args(fn: ast.AST):
     coll = a.vararg.arg if a.vararg else (a.args[-1].arg if a.args else None)
     if coll is None:
         return False
+    # awaiting wait(<all of them>) without FIRST_COMPLETED / timeout, or gather(*<all of them>), returns only when every one is done
+    for n in ast.walk(fn):
+        if isinstance(n, ast.Await) and isinstance(n.value, ast.Call):
+            c = n.value
+            nm = call_name(c)
+            if nm == "wait" and c.args and isinstance(c.args[0], ast.Name) and c.args[0].id == coll and not any(k.arg in ("return_when", "timeout") for k in c.keywords):
+                return True
+            if nm == "gather" and any(isinstance(a, ast.Starred) and isinstance(a.value, ast.Name) and a.value.id == coll for a in c.args):
+                return True
     for s in fn.body:
         if isinstance(s, (ast.For, ast.AsyncFor)) and isinstance(s.iter, ast.Name) and s.iter.id == coll and isinstance(s.target, ast.Name):
             t = s.target.id
